@@ -11,6 +11,8 @@ SER_MOD = "hippolyzer.lib.base.message.udpserializer"
 
 
 def reg_buffers(reg):
+    if "BufferWriter" in reg.classes:
+        return
     reg.add_class(ClassDecl("BufferWriter", fields={"endianness": "Str", "buffer": "Bytes"},
                             inline={"write": (SE_REL, "BufferWriter.write"), "write_bytes": (SE_REL, "BufferWriter.write_bytes"),
                                     "copy_buffer": (SE_REL, "BufferWriter.copy_buffer"), "__len__": (SE_REL, "BufferWriter.__len__")},
